@@ -314,6 +314,30 @@ let () =
              if List.exists (fun v -> String.length v > 0 && v.[0] = 'F' && v <> want) views
              then "oracle=fail@handler-got-a-damaged-body-after-a-write-fault" else v
            end else v in
+         (* a server-made 400 that ends the transcript must be justified: where the model (same bytes, same handler)
+            answers with something else, the request was well-formed *)
+         let v = if v = "oracle=ok" && List.length wire <= 131072 then begin
+             let statuses (w : int list) : int list =
+               let str = String.init (List.length w) (let a = Array.of_list w in fun i -> Char.chr (a.(i) land 255)) in
+               let n = String.length str in
+               let rec go i acc =
+                 if i + 12 > n then List.rev acc
+                 else if String.sub str i 9 = "HTTP/1.1 " && (i = 0 || str.[i-1] = '\n' || true) then
+                   (match int_of_string_opt (String.sub str (i + 9) 3) with
+                    | Some c -> go (i + 12) (c :: acc)
+                    | None -> go (i + 1) acc)
+                 else go (i + 1) acc in
+               go 0 [] in
+             let iw = (match field "wire=x" (split_ws impl_line) with
+                 | Some h -> List.init (String.length h / 2) (fun i -> int_of_string ("0x" ^ String.sub h (2 * i) 2))
+                 | None -> []) in
+             let si = statuses iw and sm = statuses wire in
+             let rec last = function [x] -> Some x | _ :: r -> last r | [] -> None in
+             if iw <> [] && last si = Some 400 && List.length si <= List.length sm
+                && List.nth sm (List.length si - 1) <> 400
+                && (let rec pre a b = match a, b with [_], _ -> true | x :: a', y :: b' -> x = y && pre a' b' | _ -> false in pre si sm)
+             then "oracle=fail@400-for-a-request-the-model-serves" else v
+           end else v in
          let v = if mode = "I" && v = "oracle=ok" && field "idle=" (split_ws impl_line) <> Some "0"
            then "oracle=fail@temp-file-alive-after-its-request-was-answered" else v in
          (* mode B: the upload was abandoned (its connection has ended) while the blocking pool was busy: its temp
